@@ -108,7 +108,16 @@ def build(verbose=False) -> tuple[bool, str]:
             rc, out = _run(["coq_makefile", "-f", "_CoqProject", "-o", "Makefile"], cwd=COQ)
             if rc != 0:
                 return False, out
-        rc, out = _run(["timeout", "1500", "make", f"-j{NPROC}"], cwd=COQ, timeout=1600)
+        rc, out = _run(["timeout", "1500", "make", "-k", f"-j{NPROC}"], cwd=COQ, timeout=1600)
+        if rc != 0:
+            # fail closed per file: a file that no longer compiles must not leave a stale .vo behind,
+            # so that everything depending on it fails to load (other properties stay checkable)
+            for m in re.finditer(r'File "\./([\w/]+)\.v", line \d+, characters [\d-]+:\s*\n\s*Error', out):
+                for ext in (".vo", ".vos", ".vok", ".glob"):
+                    try:
+                        (COQ / (m.group(1) + ext)).unlink()
+                    except FileNotFoundError:
+                        pass
         if verbose:
             print(out[-3000:])
         return rc == 0, out[-6000:]
@@ -361,10 +370,12 @@ def proof_gate(rep: Report, pid: str) -> dict:
     to search the implementation for a failing input."""
     ok, out = build()
     if not ok:
-        props = {"ok": False, "obligations": 0, "discharged": 0, "axioms": [], "theorems": [],
-                 "checker_cmd": "cd /verif/coq && make", "output_tail": out[-2500:]}
-        rep.extra["build_error"] = out[-2500:]
-        return props
+        # some file of the development does not compile; this property is still decided by
+        # whether ITS OWN Props file (and everything it loads) checks — stale objects were removed
+        rep.extra["build_error"] = out[-1500:]
+        if "forbidden constructs" in out:
+            return {"ok": False, "obligations": 0, "discharged": 0, "axioms": [], "theorems": [],
+                    "checker_cmd": "cd /verif/coq && make", "output_tail": out[-2500:]}
     props = check_props(pid)
     if not props["ok"]:
         rep.extra["props_error"] = props["output_tail"]
